@@ -244,6 +244,60 @@ theorem search_spans_with_end_anchor_repetitions_verbose (cfg : Config) (hp : Re
   exact rep_find_eol_verbose cfg hp hns hne' env ws st h hseg
     (fun w hw => by have := hlen w hw; rwa [clusterOfPieces_eq, List.length_map] at this) t ht hne s hsc (by rw [this]; exact hs)
 
+/-! ## only the requested anchors, in the pattern the regex crate builds -/
+
+/-- a pattern without anchors -/
+def Pat.NoAnchor : Spec.Pat → Prop
+  | .bol | .eol => False
+  | .cat a b | .alt a b => Pat.NoAnchor a ∧ Pat.NoAnchor b
+  | .rep p _ _ _ => Pat.NoAnchor p
+  | .grp _ p => Pat.NoAnchor p
+  | _ => True
+
+theorem noAnchor_of_frag : ∀ (p : Spec.Pat), p.Frag → Pat.NoAnchor p
+  | .eps, _ | .chr _, _ | .perl _ _, _ | .set _ _, _ => trivial
+  | .bol, h | .eol, h => h.elim
+  | .cat a b, h | .alt a b, h => ⟨noAnchor_of_frag a h.1, noAnchor_of_frag b h.2⟩
+  | .rep p _ _ _, h => noAnchor_of_frag p h.2.2
+  | .grp _ p, h => noAnchor_of_frag p h
+
+theorem noAnchor_of_fragC : ∀ (p : Spec.Pat), p.FragC → Pat.NoAnchor p
+  | .eps, _ | .chr _, _ | .perl _ _, _ | .set _ _, _ => trivial
+  | .bol, h | .eol, h => h.elim
+  | .cat a b, h | .alt a b, h => ⟨noAnchor_of_fragC a h.1, noAnchor_of_fragC b h.2⟩
+  | .rep p _ _ _, h => noAnchor_of_fragC p h.1
+  | .grp _ p, h => noAnchor_of_fragC p h
+
+/-- **C08 (only the requested anchors, pattern level)** for every well-formed expression, printed plainly or in verbose mode, with any
+anchor switches (capturing groups, `-e`, `-i` free): the pattern the regex crate builds is the concatenation of `^` iff the start anchor
+is enabled, items that contain no anchor at all, and `$` iff the end anchor is enabled -/
+theorem anchors_only_where_requested (cap esc i ns ne : Bool) (e : Expr) (hwf : e.WF) :
+    ∃ its, (∀ p ∈ its, Pat.NoAnchor p) ∧
+      Spec.parse (ciPrefix i ++ fmtRegExp (cfgAnch cap esc ns ne) e) = some (⟨i, false⟩, Spec.catList (preA ns ++ (its ++ postA ne))) ∧
+      Spec.parse (fmtRegExp (cfgVerb cap esc i ns ne) e) = some (⟨i, true⟩, Spec.catList (preA ns ++ (its ++ postA ne))) := by
+  refine ⟨topItems cap esc e, ?_, parse_ci_prefixG _ _ (flags_printedA cap esc ns ne e hwf) (parse_printedA cap esc ns ne e hwf) i,
+    parse_verbose cap esc i ns ne e hwf⟩
+  intro p hp
+  have hb := Expr.both_frag cap esc e
+  unfold topItems at hp
+  split at hp
+  · simp only [List.mem_singleton] at hp; subst hp; exact noAnchor_of_frag _ hb.2
+  · exact noAnchor_of_frag p (hb.1 p hp)
+
+/-- the same for expressions with counted graphemes (`-r`) -/
+theorem anchors_only_where_requested_repetitions (cap esc i ns ne : Bool) (e : Expr) (hwf : e.WFR) :
+    ∃ its, (∀ p ∈ its, Pat.NoAnchor p) ∧
+      Spec.parse (ciPrefix i ++ fmtRegExp (cfgAnch cap esc ns ne) e) = some (⟨i, false⟩, Spec.catList (preA ns ++ (its ++ postA ne))) ∧
+      Spec.parse (fmtRegExp (cfgVerb cap esc i ns ne) e) = some (⟨i, true⟩, Spec.catList (preA ns ++ (its ++ postA ne))) := by
+  refine ⟨topItemsR cap esc e, ?_, parse_ci_prefixG _ _ (flags_printedAR cap esc ns ne e hwf) (parse_printedAR cap esc ns ne e hwf) i,
+    parse_verboseR cap esc i ns ne e hwf⟩
+  intro p hp
+  have hb := Expr.bothR_fragC cap esc e hwf
+  unfold topItemsR at hp
+  split at hp
+  · simp only [List.mem_singleton] at hp; subst hp; exact noAnchor_of_fragC _ hb.2
+  · exact noAnchor_of_fragC p (hb.1 p hp)
+
 example : PlainPrintCI { noStart := true } := ⟨rfl, rfl, rfl, rfl, rfl⟩
 
 end Grexv.Props.C08
